@@ -31,7 +31,7 @@ FACTORS = [2, 0.5, -1, -2.0, 3, 0.25, 1.5, -0.5, 4, 1]
 def step_strategy(draw, nd):
     kind = draw(st.sampled_from(["translate", "translate", "scale", "scale", "rot", "rot", "bad"]))
     inplace = draw(st.booleans())
-    argtype = draw(st.sampled_from(["tuple", "list", "array"]))
+    argtype = draw(st.sampled_from(["tuple", "list", "array", "numpy-scalars"]))
     if kind == "translate":
         vec = [draw(st.sampled_from([0, 1, -1, 2.5, -3, 7, 0.125, -10])) for _ in range(nd)]
         return ["translate", vec, argtype, inplace]
@@ -172,6 +172,9 @@ def conv_arg(vals, argtype, nd, scalar_ok=False):
         return None
     if not isinstance(vals, list):
         return vals
+    if argtype == "numpy-scalars":
+        # numpy floats, numpy ints where the entry is a whole number
+        return tuple(np.int64(v) if isinstance(v, int) else np.float64(v) for v in vals)
     return {"tuple": tuple, "list": list, "array": np.array}[argtype](vals)
 
 
